@@ -228,8 +228,54 @@ theorem spec_bounds {D : Dataset} : ∀ (P : Alg), P.inFragment = true → (∀ 
     · exact h
     · simp at h
   | .leftJoin _ _ _ _ _, hf, _, _, _, _ => by simp [Alg.inFragment] at hf
-  | .minus _ _ _, hf, _, _, _, _ => by simp [Alg.inFragment] at hf
-  | .graph _ _, hf, _, _, _, _ => by simp [Alg.inFragment] at hf
-  | .project _ _, hf, _, _, _, _ => by simp [Alg.inFragment] at hf
+  | .minus a b _, hf, hws, g, μ, h => by
+    simp only [Alg.inFragment, Bool.and_eq_true] at hf
+    simp only [Spec.eval, minusBag, List.mem_filter] at h
+    exact spec_bounds a hf.1 (fun v hv => hws v (by simp [Alg.allVars, hv])) g μ h.1
+  | .graph gp p, hf, hws, g, μ, h => by
+    simp only [Alg.inFragment] at hf
+    have hwsp : ∀ v ∈ p.allVars, v < n := fun v hv => hws v (by simp [Alg.allVars, hv])
+    simp only [Spec.eval] at h
+    cases gp with
+    | const t =>
+      simp only [substPos] at h
+      split at h
+      · have := spec_bounds p hf hwsp (D.graphOf t) μ h
+        simpa [Alg.must, Alg.may, Pos.vars] using this
+      · cases h
+    | var w =>
+      simp only [substPos, Row.get_empty, List.mem_flatMap, List.mem_filterMap] at h
+      obtain ⟨ng, _, μ', hμ', hb⟩ := h
+      have ih := spec_bounds p hf hwsp ng.2 μ' hμ'
+      rw [bindGraphVar_eq_matchOne] at hb
+      have hle := matchOne_le hb
+      have hbd := matchOne_bounds hb
+      refine ⟨?_, ?_⟩
+      · intro v hv
+        simp only [Alg.must, Pos.vars, List.cons_append, List.nil_append, List.mem_cons] at hv
+        rcases hv with hv | hv
+        · subst hv
+          exact hbd.1 v (by simp [Pos.vars]) (hws v (by simp [Alg.allVars, Pos.vars]))
+        · exact Row.le_isSome hle (ih.1 v hv)
+      · intro v hv
+        simp only [Alg.may, Pos.vars, List.cons_append, List.nil_append, List.mem_cons]
+        rcases hbd.2 v hv with h | h
+        · left; simpa [Pos.vars] using h
+        · right; exact ih.2 v h
+  | .project p pv, hf, hws, g, μ, h => by
+    simp only [Alg.inFragment] at hf
+    simp only [Spec.eval, Row.restrict_empty, List.mem_map] at h
+    obtain ⟨μ', hμ', rfl⟩ := h
+    have ih := spec_bounds p hf (fun v hv => hws v (by simp [Alg.allVars, hv])) g μ' hμ'
+    refine ⟨?_, ?_⟩
+    · intro v hv
+      simp only [Alg.must, List.mem_filter, List.contains_eq_mem, decide_eq_true_eq] at hv
+      rw [Row.get_restrict]; simp [hv.2, ih.1 v hv.1]
+    · intro v hv
+      rw [Row.get_restrict] at hv
+      simp only [Alg.may, List.mem_filter, List.contains_eq_mem, decide_eq_true_eq]
+      split at hv
+      · next hp => exact ⟨ih.2 v hv, hp⟩
+      · cases hv
 
 end RV.C04
